@@ -8,7 +8,15 @@ FN = {"equal": "assert_equal", "not_equal": "assert_not_equal", "less": "assert_
       "greater": "assert_greater", "greater_equal": "assert_greater_equal", "in": "assert_in", "not_in": "assert_not_in",
       "is_none": "assert_is_none", "is_not_none": "assert_is_not_none", "true": "assert_true", "false": "assert_false",
       "length_equal": "assert_length_equal", "length_not_equal": "assert_length_not_equal",
-      "length_less": "assert_length_less", "length_greater_equal": "assert_length_greater_equal"}
+      "length_less": "assert_length_less", "length_greater_equal": "assert_length_greater_equal", "is": "assert_is",
+      "is_not": "assert_is_not", "is_instance": "assert_is_instance", "not_is_instance": "assert_not_is_instance",
+      "regex": "assert_regex", "not_regex": "assert_not_regex", "output": "assert_output", "not_output": "assert_not_output",
+      "output_contains": "assert_output_contains", "not_output_contains": "assert_not_output_contains"}
+SAY = {"o:abc": "print('abc')", "o:ABC!": "print('ABC!')", "o:abd": "print('abd')", "o:none": "pass", "o:two": "print('abd')\n    print('abc')"}
+OUT_TEXT = {"abc": "abc", "ABC": "ABC", "abc!": "abc!", "abd": "abd", "empty": "", "two": "abc\nabd"}
+OUT_FAMILY = {"output", "not_output", "output_contains", "not_output_contains"}
+EXTRA = {"t:int": int, "t:float": float, "t:str": str, "t:list": list, "t:bool": bool, "t:tuple": tuple,
+         "re:ab.": "ab.", "re:^b": "^b", "re:z": "z", "re:[0-9]": "[0-9]"}
 UNARY = {"is_none", "is_not_none", "true", "false"}
 
 
@@ -17,11 +25,14 @@ def student_source():
     for i, (name, lit) in enumerate(sorted(PY.items())):
         lines.append("def get_%d():\n    return %s" % (i, lit))
     lines.append("def raises():\n    raise ValueError('student failure')")
+    for i, (name, body) in enumerate(sorted(SAY.items())):
+        lines.append("def say_%d():\n    %s" % (i, body))
     lines.append("def ut(x):\n    if x % 3 == 0:\n        return x\n    if x % 3 == 1:\n        return x + 1\n    raise ValueError('bad')")
     return "\n".join(lines) + "\n"
 
 
 GETTER = {name: "get_%d" % i for i, name in enumerate(sorted(PY))}
+SAYER = {name: "say_%d" % i for i, name in enumerate(sorted(SAY))}
 
 
 class World:
@@ -37,6 +48,8 @@ class World:
     def value(self, name, wrap):
         if name == "err":
             return self.S.call("raises")
+        if name in EXTRA:
+            return EXTRA[name]          # types and patterns are instructor-side values, never proxied
         if wrap == "proxy":
             return self.S.call(GETTER[name])
         return eval(PY[name])
@@ -46,6 +59,16 @@ def run_case(w, rec, wl, wr):
     from pedal.core.report import MAIN_REPORT as R
     import pedal.assertions.runtime as RT
     fn = getattr(RT, FN[rec["a"]])
+    if rec["a"] in OUT_FAMILY:
+        # the execution is always the result of a real call(); the expected text is an instructor-side string
+        left = w.S.call("raises") if rec["l"] == "err" else w.S.call(SAYER[rec["l"]])
+        n0 = len(R.feedback)
+        try:
+            fb = fn(left, OUT_TEXT[rec["r"]])
+        except Exception as e:
+            return {"observed": "raised", "detail": "%s: %s" % (type(e).__name__, e)}
+        failing = bool(fb) and any(f is fb for f in R.feedback[n0:])
+        return {"observed": "fails" if failing else "silent", "status": getattr(fb, "_status", None), "bool": bool(fb)}
     left = w.value(rec["l"], wl)
     n0 = len(R.feedback)
     try:
@@ -73,6 +96,8 @@ def replay_chunk(cases, extra):
             wraps = [("raw", "raw"), ("proxy", "raw"), ("raw", "proxy"), ("proxy", "proxy")]
             if rec["a"] in UNARY:
                 wraps = [("raw", "raw"), ("proxy", "raw")]
+            if rec["a"] in OUT_FAMILY:
+                wraps = [("proxy", "raw")]
             for wl, wr in wraps:
                 if rec["l"] == "err" and wl == "raw" or (rec["a"] not in UNARY and rec["r"] == "err" and wr == "raw"):
                     continue
